@@ -740,6 +740,11 @@ func (lcp *LCPStateMachine) receiveEchoRequest(pkt *LCPPacket) error {
 		return nil
 	}
 
+	// RFC 1661 5.8: the data field starts with the 4-byte Magic-Number
+	if len(pkt.Data) < 4 {
+		return fmt.Errorf("LCP Echo-Request too short")
+	}
+
 	// Build Echo-Reply with our magic number
 	replyData := make([]byte, 4+len(pkt.Data)-4)
 	binary.BigEndian.PutUint32(replyData[:4], lcp.config.MagicNumber)
